@@ -637,6 +637,10 @@ structure TaskS where
   alive : Bool := true
   /-- after the pending write completes: the task ends (431 answer of `resolve_request`) -/
   dieAfter : Bool := false
+  /-- a `snd` task: which `SendRequest` handle it owns (`XState.handles`) -/
+  handle : Nat := 0
+  /-- the task kept the receive half after `split` -/
+  recvHalf : Bool := false
 deriving Repr
 
 structure Sc where
@@ -674,6 +678,13 @@ structure Sc where
   closing : Bool := false
   /-- the last `SendRequest` was dropped: the connection error H3_NO_ERROR ends `wait_idle` -/
   sndDropped : Bool := false
+  /-- `XState.frozen` / `XState.handles` of the extended machine -/
+  frozen : List (Nat × Stream × Option Nat) := []
+  handles : List Bool := []
+  /-- streams for which the peer's STOP_SENDING has arrived -/
+  peerStopped : List Nat := []
+  /-- a call was abandoned while SimQuic still held its `WriteBuf`: the summary keeps saying `writing` -/
+  ghostWriting : List Nat := []
 
 def Sc.cfg (s : Sc) : Config := effectiveCfg s.server s.sc.cfg
 
@@ -693,7 +704,27 @@ def Sc.setCredit (s : Sc) (sid c : Nat) : Sc :=
 def Sc.stream? (s : Sc) (sid : Nat) : Option Stream :=
   s.m.bind (fun m => (m.streams.find? (·.1 == sid)).map (·.2))
 
-def Sc.mstep (s : Sc) (st : Step) : Sc := { s with m := s.m.map (fun m => step m st) }
+/-- one step of the extended machine (`H3.SendSide.xstep`) -/
+def Sc.xs (s : Sc) (x : XStep) : Sc :=
+  match s.m with
+  | none => s
+  | some m =>
+    let r := xstep { st := m, frozen := s.frozen, handles := s.handles } x
+    { s with m := some r.st, frozen := r.frozen, handles := r.handles }
+
+def Sc.mstep (s : Sc) (st : Step) : Sc := s.xs (.api st)
+
+/-- SimQuic's `poll_finish` does not look at STOP_SENDING / RESET_STREAM: a `finish()` on a stream that
+    has ended still sets FIN - unless its grease frame is due, whose write fails first -/
+def Sc.finFrozen (s : Sc) (sid : Nat) : Sc :=
+  { s with frozen := s.frozen.map (fun e =>
+      if e.1 == sid && !e.2.1.grease then (e.1, { e.2.1 with fin := true }, e.2.2) else e) }
+
+def Sc.isFrozen (s : Sc) (sid : Nat) : Bool := s.frozen.any (fun e => e.1 == sid)
+
+/-- a stream h3 has just begun to use may have been stopped by the peer before -/
+def Sc.stopIfStopped (s : Sc) (sid : Nat) : Sc :=
+  if s.peerStopped.contains sid then s.xs (.peerStop sid 0) else s
 
 def logLen (s : Sc) (sid : Nat) : Nat := ((s.stream? sid).map (·.log.length)).getD 0
 
@@ -806,7 +837,7 @@ def tryAccept : Nat → Sc → Option (Sc × Nat)
       if rejected then tryAccept fuel s
       else
         let largest := match s.lastAccepted with | some l => max l sid | none => sid
-        some ({ s with lastAccepted := some largest, accepted := s.accepted + 1 }.mstep (.acceptRequest sid), sid)
+        some (({ s with lastAccepted := some largest, accepted := s.accepted + 1 }.mstep (.acceptRequest sid)).stopIfStopped sid, sid)
 
 /-- one command of a task that is not busy; returns the new state -/
 def execCmd (s : Sc) (t : TaskS) (cmd : String) (hint : Option Bytes) : Sc :=
@@ -850,7 +881,14 @@ def execCmd (s : Sc) (t : TaskS) (cmd : String) (hint : Option Bytes) : Sc :=
   | .snd =>
     (match op with
      | "R" => if s.closing || s.recvClosing then s else setBusy s (.openBidi hint)
-     | "dr" => die { s with sndDropped := true, driving := false }
+     | "cl" =>
+       -- `SendRequest::clone`: another handle (task `snd2`, `snd3`, …) with a copy of the grease flag
+       let n := (s.tasks.filter (fun t => t.kind == .snd)).length
+       let h := if s.handles.isEmpty then 1 else s.handles.length
+       (s.xs (.cloneSender t.handle)).spawn { name := s!"snd{n + 1}", kind := .snd, handle := h }
+     | "dr" =>
+       let others := s.tasks.any (fun o => o.kind == .snd && o.alive && o.name != t.name)
+       if others then die s else die { s with sndDropped := true, driving := false }
      | _ => s)
   | .resolver sid =>
     (match op with
@@ -875,7 +913,14 @@ def execCmd (s : Sc) (t : TaskS) (cmd : String) (hint : Option Bytes) : Sc :=
        (match hexOf arg with
         | some b => setBusy (s.mstep (.sendData sid b)) (.stream sid)
         | none => s)
-     | "fi" => setBusy (s.mstep (.finish sid bigDraw)) (.stream sid)
+     | "fi" =>
+       if s.isFrozen sid then s.finFrozen sid
+       else setBusy (s.mstep (.finish sid bigDraw)) (.stream sid)
+     | "rs" => s.xs (.stopStream sid ((natOf arg).getD 0))
+     | "ss" => s.xs (.stopSending sid ((natOf arg).getD 0))
+     | "sp" =>
+       (s.updTask t.name (fun t => { t with recvHalf := true })).spawn
+         { name := t.name ++ "s", kind := .req sid }
      | "dr" => die s
      | _ => s)
 
@@ -920,7 +965,7 @@ def resume (s : Sc) (t : TaskS) (b : BusyOn) : Option Sc :=
        let s := ({ s with bc := bc', nextBidi := s.nextBidi + 1 }.mkStream sid)
        (match hint with
         | some fs =>
-          some ((s.mstep (.sendRequest sid fs)).updTask t.name
+          some (((s.xs (.sendRequestVia t.handle sid fs)).stopIfStopped sid).updTask t.name
             (fun t => { t with busy := some ("R", .stream sid) }))
         | none => some (free s)))
   | .forever => none
@@ -970,6 +1015,23 @@ def applyOp (s : Sc) (op : String) : Option Sc :=
   | cs =>
     match isApiOp op with
     | some (task, cmd) =>
+      if cmd == "kill" || cmd == "kill?" then
+        -- the task's future is dropped with everything it owns: a request task's send side ends where
+        -- it is (the receive half after `split` owns no send side)
+        match s.tasks.find? (fun t => t.name == task && t.alive) with
+        | none => if cmd == "kill" then none else some s
+        | some t =>
+          -- (the harness keeps listing the call a killed task was in as pending)
+          let s := s.updTask task (fun t => { t with alive := false, mailbox := [] })
+          (match t.kind with
+           | .req sid =>
+             if t.recvHalf then some s
+             else
+               let ghost := match s.stream? sid with | some st => st.cur.isSome | none => false
+               some ({ s with ghostWriting := if ghost then sid :: s.ghostWriting else s.ghostWriting }.xs (.abandon sid))
+           | .resolver _ => some s
+           | _ => none)
+      else
       let hint := s.hint
       let s := { s with hint := none }
       some (s.updTask task (fun t => if t.alive then { t with mailbox := t.mailbox ++ [(cmd, hint)] } else t))
@@ -1014,6 +1076,24 @@ def applyOp (s : Sc) (op : String) : Option Sc :=
             | _, _ => none)
          | none => none)
       | 'f' :: r => (natOf r).map (fun _ => s)
+      | 'x' :: r =>
+        -- STOP_SENDING: the call in progress on that stream fails, nothing more is written there
+        (match splitOnce ':' r with
+         | some (sid, c) =>
+           (match natOf sid, natOf c with
+            | some sid, some c =>
+              if s.known.contains sid then some ({ s with peerStopped := sid :: s.peerStopped }.xs (.peerStop sid c))
+              else some s
+            | _, _ => none)
+         | none => none)
+      | 'r' :: r =>
+        -- RESET_STREAM from the peer: the receive side
+        (match splitOnce ':' r with
+         | some (sid, c) =>
+           (match natOf sid, natOf c with
+            | some sid, some c => some (s.xs (.peerReset sid c))
+            | _, _ => none)
+         | none => none)
       | 'g' :: 'u' :: r => (natOf r).map (fun k => { s with uc := s.uc.map (· + k) })
       | 'g' :: 'b' :: r => (natOf r).map (fun k => { s with bc := s.bc.map (· + k) })
       | 'g' :: 'w' :: r =>
@@ -1036,7 +1116,7 @@ def insertSorted (x : String) : List String → List String
 
 def pendingOf (s : Sc) : String :=
   let names := s.tasks.filterMap (fun t =>
-    if !t.alive then none
+    if !t.alive && t.busy.isNone then none
     else match t.busy with
       | some (op, _) => some s!"{t.name}.{op}"
       | none => if t.kind == .drv && s.driving then some s!"{t.name}.W" else none)
@@ -1047,7 +1127,10 @@ def logsOf (s : Sc) : List SLog :=
   | none => []
   | some m =>
     let ls := m.streams.map (fun e =>
-      ({ sid := e.1, tx := e.2.log, fin := e.2.fin, writing := e.2.cur.isSome } : SLog))
+      ({ sid := e.1, tx := e.2.log, fin := e.2.fin, writing := e.2.cur.isSome } : SLog)) ++
+      s.frozen.map (fun e =>
+        ({ sid := e.1, tx := e.2.1.log, fin := e.2.1.fin, writing := s.ghostWriting.contains e.1,
+           rst := e.2.2 } : SLog))
     -- by stream id, as the harness prints them
     (ls.foldr (fun l acc =>
       let (a, b) := acc.span (fun x => x.sid < l.sid)
